@@ -15,7 +15,7 @@ from sa.sym import I, ZERO
 from rules import c11
 
 P = lambda p, f: sym.arrow(sym.sym(p), f)
-NOINLINE = summ.InlineLib(only=lambda f: False)
+NOINLINE = summ.LOCAL_HELPERS
 KERNELS = {"LagrangeHalfCPolynomialMul": "=", "LagrangeHalfCPolynomialAddMul": "+=", "LagrangeHalfCPolynomialSubMul": "-="}
 
 
